@@ -200,6 +200,30 @@ class C08(Prop):
                     acc.violation(f"field-wrong:{kind}:{name}", f"{kind} reply {d}: {name} = {got}, want {want}", {"kind": kind, "desc": d, "reply": reply.hex()})
                 acc.sig(env.sig(kind, sorted(d.items())))
                 acc.count(f"replies_{kind}")
+                if q % 5 == (i + 2) % 5:
+                    # the caller writes into the object it got (an optimistic update of its own view); the device then sends the
+                    # very same reply again: the new object says what the reply says
+                    try:
+                        for attr in ("state", "mode", "direction", "fan_level", "swing"):
+                            if hasattr(resp, attr):
+                                cur_ = getattr(resp, attr)
+                                setattr(resp, attr, next(x for x in type(cur_) if x is not cur_))
+                        for attr, val in (("time_left", "11:11:11"), ("time_on", "00:00:01"), ("auto_shutdown", "22:22:22"), ("power_consumption", 1), ("electric_current", 0.1),
+                                          ("position", 99), ("temperature", -1.0), ("target_temperature", 99), ("remote_id", "EDITED")):
+                            if hasattr(resp, attr):
+                                setattr(resp, attr, val)
+                    except Exception:
+                        pass
+                    queue.append(reply)
+                    acc.ev()
+                    acc.count("same_reply_again_after_the_caller_edited_the_response")
+                    try:
+                        resp2 = await call()
+                        for name, got, want in mismatches(kind, resp2, d):
+                            acc.violation(f"field-wrong:{kind}:{name}:after-caller-edit", f"{kind} reply {d} (the same bytes again, after the caller had edited the first response "
+                                          f"object): {name} = {got}, want {want}", {"kind": kind, "desc": d})
+                    except Exception as exc:
+                        acc.violation(f"well-formed-reply-raised:{kind}", f"{kind} reply {d} (second time) raised {type(exc).__name__}: {exc}", {"kind": kind, "desc": d})
                 if q % 6 == i % 6:
                     # an application that reads the socket itself hands the reply over in whatever buffer it has
                     from aioswitcher.api import messages as _m
@@ -234,6 +258,34 @@ class C08(Prop):
             await c2.close()
         if i % 300 < 3:
             acc.sample({"kind": kind, "last_desc": d, "last_reply": reply.hex()[:100] + "..."})
+
+
+    def thread_pairs(self, ctx):
+        from aioswitcher.api import messages as m
+
+        r = env.rng("C08", "threads")
+        out = []
+        descs = {"thermo": (gen_thermo(r, 3), gen_thermo(r, 8)), "state1": (gen_state1(r, 1), gen_state1(r, 7)), "shutter": (gen_shutter(r, 5), gen_shutter(r, 301))}
+        build = {"thermo": replies.thermostat, "state1": replies.state1, "shutter": replies.shutter}
+        cls = {"thermo": m.SwitcherThermostatStateResponse, "state1": m.SwitcherStateResponse, "shutter": m.SwitcherShutterStateResponse}
+
+        def pair(ka, da, kb, db):
+            ra, rb = build[ka](da), build[kb](db)
+
+            def judge(kind, d):
+                def j(res):
+                    if not hasattr(res, "unparsed_response"):
+                        return f"{res!r}"
+                    bad = mismatches(kind, res, d)
+                    return None if not bad else f"decoded {bad[0][0]} = {bad[0][1]}, the reply encodes {bad[0][2]}"
+                return j
+            return (f"decode {ka} reply || decode {kb} reply", lambda: cls[ka](ra), lambda: cls[kb](rb), judge(ka, da), judge(kb, db))
+
+        out.append(pair("thermo", descs["thermo"][0], "thermo", descs["thermo"][1]))
+        out.append(pair("state1", descs["state1"][0], "shutter", descs["shutter"][0]))
+        out.append(pair("shutter", descs["shutter"][1], "state1", descs["state1"][1]))
+        out.append(pair("state1", descs["state1"][0], "state1", descs["state1"][1]))
+        return out
 
 
 PROP = C08()
